@@ -410,7 +410,7 @@ func c04(c *an.Ctx) {
 				for _, ref := range an.FieldRefs(fn, rxPath(), "Rerunner", field) {
 					o.Site(ref.Instr)
 					name := an.QualName(fn)
-					if an.RelPkg(fn) != rx || !allowed[name] {
+					if !p.AllowedFunc(fn, func(f *ssa.Function) bool { return an.RelPkg(f) == rx && allowed[an.QualName(f)] }) {
 						o.FailAt(ref.Instr, "%s.%s accesses Rerunner.%s", an.RelPkg(fn), name, field)
 						continue
 					}
@@ -646,23 +646,44 @@ func ruleRunUnderLock(c *an.Ctx, o *an.O) {
 			}
 		}
 		an.Need(lockI != nil, "r.mu.Lock in Rerunner.run")
-		errIfs := an.CondIfs(fn, func(v ssa.Value) bool {
-			s := an.Expr(v)
-			return strings.Contains(s, ".Err()") && strings.Contains(s, "!= nil")
+		errIfs := an.NilTestsWhere(fn, func(v ssa.Value) bool {
+			return strings.HasSuffix(an.Expr(v), ".Err()")
 		})
 		if len(errIfs) == 0 {
 			o.Fail(p.Pos(fn.Pos()), "Rerunner.run no longer returns early on a cancelled context")
 		} else {
 			b2 := an.NewBlocker()
-			for _, ci := range errIfs {
-				b2.AddEdge(ci.If.Block(), ci.False)
-				o.Site(ci.If)
+			for _, nt := range errIfs {
+				b2.AddEdge(nt.If.Block(), nt.NilSucc)
+				o.Site(nt.If)
 			}
 			if an.Reach(fn, nil, b2)[call] {
 				o.FailAt(call, "the computation is reachable without the cancelled-context test")
 			}
 		}
 	}
+}
+
+// phiLeaves expands phis (and nil constants away) to the values that can flow into v.
+func phiLeaves(v ssa.Value) []ssa.Value {
+	var out []ssa.Value
+	seen := map[ssa.Value]bool{}
+	var walk func(v ssa.Value)
+	walk = func(v ssa.Value) {
+		if v == nil || seen[v] {
+			return
+		}
+		seen[v] = true
+		if ph, ok := v.(*ssa.Phi); ok {
+			for _, e := range ph.Edges {
+				walk(e)
+			}
+			return
+		}
+		out = append(out, v)
+	}
+	walk(v)
+	return out
 }
 
 func lockerMapOps(fn *ssa.Function) []ssa.Instruction {
@@ -784,6 +805,7 @@ func c08(c *an.Ctx) {
 		fn := c.NeedFunc(rx, "Cache")
 		adds := an.Calls(fn, an.Mod(rx, "node", "addOut"))
 		nret := 0
+		hitRet, missRet := false, false
 		for _, e := range an.Exits(fn, false) {
 			ret := e.(*ssa.Return)
 			if len(ret.Results) != 2 {
@@ -800,6 +822,18 @@ func c08(c *an.Ctx) {
 			nret++
 			o.Site(e)
 			child := fa.X
+			for _, leaf := range phiLeaves(child) {
+				switch x := leaf.(type) {
+				case *ssa.Call:
+					if an.Mod(rx, "cache", "get").Matches(x.Common()) {
+						hitRet = true
+					}
+				case *ssa.Extract:
+					if call, ok := x.Tuple.(*ssa.Call); ok && call.Call.StaticCallee() == c.NeedFunc(rx, "run") {
+						missRet = true
+					}
+				}
+			}
 			var mine []ssa.Instruction
 			for _, a := range adds {
 				cc := an.CallOf(a)
@@ -823,8 +857,8 @@ func c08(c *an.Ctx) {
 				o.FailAt(e, "this return of child.value is reachable without child.node.addOut(&computation.node)")
 			}
 		}
-		if nret < 2 {
-			o.Fail(p.Pos(fn.Pos()), "expected a hit and a miss return of child.value in Cache, found %d", nret)
+		if !hitRet || !missRet {
+			o.Fail(p.Pos(fn.Pos()), "expected Cache to return child.value both for a cached child (hit: %v) and for a freshly run one (miss: %v); %d such returns", hitRet, missRet, nret)
 		}
 		// miss path: cache.set before addOut of the fresh child
 		sets := an.Calls(fn, an.Mod(rx, "cache", "set"))
